@@ -244,9 +244,39 @@ func checkReadCount(c *Ctx, f *ssa.Function) {
 	R.Floor("R09.1:success-returns:"+fn, n, 1)
 }
 
+// checkSentinelIdentity: on the inbound and run paths no error is compared by identity (== / !=) with os.ErrDeadlineExceeded. The
+// capture handles report an expired read deadline wrapped (*fs.PathError from a file, *net.OpError from a connection): only
+// errors.Is finds it, and an identity test makes every quiet poll interval a fatal read error that aborts the run.
+func checkSentinelIdentity(c *Ctx) {
+	R := c.R
+	n := 0
+	ir, _ := inboundRoots(c)
+	roots := append(ir, runRoots(c)...)
+	for _, f := range ModReach(c.P, roots...) {
+		for _, b := range f.Blocks {
+			for _, in := range b.Instrs {
+				bo, ok := in.(*ssa.BinOp)
+				if !ok || bo.Op != token.EQL && bo.Op != token.NEQ {
+					continue
+				}
+				for _, side := range []ssa.Value{bo.X, bo.Y} {
+					if ld, ok := c.P.Def(side).(*ssa.UnOp); ok {
+						if g, ok := ld.X.(*ssa.Global); ok && g.Name() == "ErrDeadlineExceeded" && g.Pkg != nil && g.Pkg.Pkg.Path() == "os" {
+							n++
+							R.Fail("R09.1", core.FuncName(f)+"#deadline-sentinel-identity", bo.Pos(), core.FuncName(f), "an error is compared with os.ErrDeadlineExceeded by identity: the handles report the expired deadline wrapped (*fs.PathError, *net.OpError), so the test is false for them and an ordinary quiet poll interval becomes a fatal read error that ends the run and discards the replies still to come")
+						}
+					}
+				}
+			}
+		}
+	}
+	R.OK("R09.1", "run-path#deadline-sentinel-identity", 0, "", fmt.Sprintf("no identity comparison with os.ErrDeadlineExceeded on the run path (%d found)", n))
+}
+
 // checkPremises verifies the facts the exception table relies on.
 func checkPremises(c *Ctx) {
 	R := c.R
+	checkSentinelIdentity(c)
 	// (1) ReadAndParse: Parse is only called with n != 0 and a nil read error
 	f := c.P.Func("packets.ReadAndParse")
 	if f == nil {
